@@ -615,8 +615,6 @@ func (c *c19) checkCasts() {
 			if !to.Float && to.Bits < 32 && !from.Float && from.Bits > to.Bits {
 				if !isNormaliser(ops, to) {
 					narrowBad[to.Name] = append(narrowBad[to.Name], from.Name)
-				} else {
-					narrowBad[to.Name] = append(narrowBad[to.Name])
 				}
 			}
 			// R8: float -> int saturates
@@ -629,8 +627,6 @@ func (c *c19) checkCasts() {
 				}
 				if !sat {
 					satBad[from.Name] = append(satBad[from.Name], to.Name)
-				} else {
-					satBad[from.Name] = append(satBad[from.Name])
 				}
 			}
 			// R9: signed <-> unsigned saturates
@@ -647,8 +643,6 @@ func (c *c19) checkCasts() {
 				}
 				if !sat {
 					signBad[key] = append(signBad[key], from.Name+"->"+to.Name)
-				} else {
-					signBad[key] = append(signBad[key])
 				}
 			}
 		}
